@@ -41,20 +41,24 @@ type cENI struct {
 type Cloud struct {
 	register.Interface // unimplemented methods panic (nil embedded interface): a run that reaches one is reported
 
-	w       *World
-	enis    map[string]*cENI
-	order   []string
-	nextENI int
-	nextIP  int
-	calls   int
-	inflight int
+	w         *World
+	enis      map[string]*cENI
+	order     []string
+	nextENI   int
+	nextIP    int
+	calls     int
+	inflight  int
+	fullReads int
 	// mutations issued by the controller, for the fixed-point oracle
-	mutations int
-	history   []string
+	mutations      int
+	history        []string
+	histAt         []time.Time
+	timedOut       map[string]string // create parameters -> interface created by a call that then timed out
+	timedOutAssign map[string][]aliyunClient.IPSet
 }
 
 func newCloud(w *World) *Cloud {
-	return &Cloud{w: w, enis: map[string]*cENI{}}
+	return &Cloud{w: w, enis: map[string]*cENI{}, timedOut: map[string]string{}, timedOutAssign: map[string][]aliyunClient.IPSet{}}
 }
 
 func (c *Cloud) ip4() string {
@@ -158,6 +162,36 @@ func (c *Cloud) leave(site, detail string) {
 func (c *Cloud) mutated(what string) {
 	c.mutations++
 	c.history = append(c.history, what)
+	c.histAt = append(c.histAt, time.Now())
+}
+
+func (c *Cloud) orphanOfFailedCreate(id string) bool {
+	for _, tid := range c.timedOut {
+		if tid == id {
+			return true
+		}
+	}
+	return false
+}
+
+// recentCycle tells whether the mutations of the last d consist of nothing but repeated
+// assign / unassign calls (the pool being trimmed and refilled over and over).
+func (c *Cloud) recentCycle(d time.Duration) bool {
+	as, un := 0, 0
+	for i := len(c.history) - 1; i >= 0; i-- {
+		if time.Since(c.histAt[i]) > d {
+			break
+		}
+		switch {
+		case strings.HasPrefix(c.history[i], "unassign"):
+			un++
+		case strings.HasPrefix(c.history[i], "assign"):
+			as++
+		default:
+			return false
+		}
+	}
+	return as >= 2 && un >= 2
 }
 
 func cloudErr(kind string) error {
@@ -231,6 +265,11 @@ func (c *Cloud) DescribeNetworkInterfaceV2(ctx context.Context, opts ...aliyunCl
 		j := simrt.Choose(i+1, "describe-order")
 		out[i], out[j] = out[j], out[i]
 	}
+	if o.InstanceID != nil && *o.InstanceID != "" && (o.NetworkInterfaceIDs == nil || len(*o.NetworkInterfaceIDs) == 0) {
+		// the read a full synchronisation starts with
+		c.w.unsynced, c.w.amnesia = false, false
+		c.fullReads++
+	}
 	c.leave("describe", fmt.Sprintf("%d", len(out)))
 	return out, nil
 }
@@ -242,7 +281,26 @@ func (c *Cloud) CreateNetworkInterfaceV2(ctx context.Context, opts ...aliyunClie
 	}
 	nio := o.NetworkInterfaceOptions
 	fault := c.enter("create", fmt.Sprintf("instance=%s v4=%d v6=%d trunk=%v erdma=%v", nio.InstanceID, nio.IPCount, nio.IPv6Count, nio.Trunk, nio.ERDMA))
-	c.w.quotaOnCreate(nio)
+	// The real client gives a retried create with the same parameters the idempotency token of
+	// the attempt that failed (C16): the cloud then answers with the interface it already
+	// created. That layer sits below this seam, so the stub reproduces its effect.
+	pkey := fmt.Sprintf("%s|%s|%d|%d|%v|%v", nio.InstanceID, nio.VSwitchID, nio.IPCount, nio.IPv6Count, nio.Trunk, nio.ERDMA)
+	if id, ok := c.timedOut[pkey]; ok && fault != "err" && fault != "throttle" {
+		if e := c.enis[id]; e != nil {
+			delete(c.timedOut, pkey)
+			c.w.run.Probe("create-retry-idempotent")
+			if fault == "err-after" {
+				c.timedOut[pkey] = id
+				c.w.run.Fault("cloud.create.err-after")
+				c.leave("create", "err after effect (again) "+id)
+				return nil, cloudErr(fault)
+			}
+			c.leave("create", id+" (same token: existing interface)")
+			return c.toAPI(e), nil
+		}
+		delete(c.timedOut, pkey)
+	}
+	c.w.quotaOnCreate(nio, c.timedOut[pkey])
 	switch fault {
 	case "err", "quota-eni", "vsw", "quota-ip", "throttle":
 		c.w.run.Fault("cloud.create." + fault)
@@ -263,6 +321,7 @@ func (c *Cloud) CreateNetworkInterfaceV2(ctx context.Context, opts ...aliyunClie
 	c.w.pendingInstance[e.ID] = nio.InstanceID
 	c.mutated("create " + e.ID)
 	if fault == "err-after" {
+		c.timedOut[pkey] = e.ID
 		c.w.run.Fault("cloud.create.err-after")
 		c.leave("create", "err after effect "+e.ID)
 		return nil, cloudErr(fault)
@@ -401,7 +460,33 @@ func (c *Cloud) assign(site string, opts *aliyunClient.NetworkInterfaceOptions, 
 	}
 	fault := c.enter(site, fmt.Sprintf("%s n=%d", opts.NetworkInterfaceID, n))
 	e := c.enis[opts.NetworkInterfaceID]
-	c.w.quotaOnAssign(e, n, v6)
+	// same token => same answer (see CreateNetworkInterfaceV2)
+	akey := fmt.Sprintf("%s|%s|%d", site, opts.NetworkInterfaceID, n)
+	if prev, ok := c.timedOutAssign[akey]; ok && e != nil && fault != "err" && fault != "throttle" && fault != "vsw" && fault != "quota-ip" && fault != "count4" {
+		still := true
+		for _, ip := range prev {
+			if !c.hasIP(ip.IPAddress) {
+				still = false
+			}
+		}
+		if still {
+			if fault == "err-after" {
+				c.w.run.Fault("cloud." + site + ".err-after")
+				c.leave(site, "err after effect (again)")
+				return nil, cloudErr(fault)
+			}
+			delete(c.timedOutAssign, akey)
+			c.w.run.Probe("assign-retry-idempotent")
+			c.leave(site, fmt.Sprintf("%v (same token: existing addresses)", prev))
+			return prev, nil
+		}
+		delete(c.timedOutAssign, akey)
+	}
+	pending := 0
+	if prev, ok := c.timedOutAssign[akey]; ok {
+		pending = len(prev)
+	}
+	c.w.quotaOnAssign(e, n, pending, v6)
 	switch fault {
 	case "err", "vsw", "quota-ip", "count4", "throttle":
 		c.w.run.Fault("cloud." + site + "." + fault)
@@ -427,6 +512,7 @@ func (c *Cloud) assign(site string, opts *aliyunClient.NetworkInterfaceOptions, 
 	c.mutated(site + " " + e.ID)
 	if fault == "err-after" {
 		// timeout after effect: the addresses exist, nothing is reported
+		c.timedOutAssign[akey] = out
 		c.w.run.Fault("cloud." + site + ".err-after")
 		c.leave(site, fmt.Sprintf("err after effect %v", out))
 		return nil, cloudErr(fault)
